@@ -329,7 +329,7 @@ def _big_cases(tier):
 
 
 def cases(rng, tier):
-    n_seg, n_graph = (450, 300) if tier == "quick" else (6000, 4000)
+    n_seg, n_graph = (1200, 800) if tier == "quick" else (12000, 8000)
     for _ in range(n_seg):
         yield _seg_case(rng)
     for _ in range(n_graph):
